@@ -28,17 +28,22 @@ func TestMain(m *testing.M) {
 		"noncanon:truncated", "noncanon:trailing", "noncanon:huge-len", "noncanon:int-leading-zero",
 		"api:DecodeBytes", "api:Stream", "api:Split", "api:CountValues", "api:Decode(reader)",
 		"type:Header", "type:Transaction", "type:Receipt", "type:Log", "type:Account", "type:Block", "type:struct", "recursive:nested",
-		"accepted", "rejected", "nesting>=2", "alloc-measured")
+		"accepted", "rejected", "nesting>=2", "alloc-measured",
+		"allocp:long-payload-few-elements", "allocp:long-payload-few-elements-rejected", "allocp:many-elements",
+		"allocp:input>=64KiB", "allocp:input>=512KiB", "allocp:consensus-type", "allocp:accepted", "allocp:rejected")
 	ev.Main(m, ev.Config{
 		Property: "C11",
 		Level:    "exploration",
 		Rule: "cases: (a) every byte string up to length 4 (quick) / 5 (thorough) over a 15-symbol boundary alphabet, enumerated; " +
 			"(b) rapid-generated abstract items, their canonical encodings and single-header non-canonical re-encodings (long form for short length, leading-zero length, wrapped single byte, truncation, trailing byte, huge declared length); " +
-			"(c) rapid-generated Go values of every supported kind and every consensus type (Header, Transaction, Block, Receipt, Log, Account), and trees of four recursive type families (struct-first, slice-first, pointer, mutually recursive). " +
-			"non-trivial = a near-miss (differs from a canonical encoding in one header) or an item with nesting >= 2 or a typed value; distinct by hash of the input bytes + target name",
+			"(c) rapid-generated Go values of every supported kind and every consensus type (Header, Transaction, Block, Receipt, Log, Account), and trees of four recursive type families (struct-first, slice-first, pointer, mutually recursive); " +
+			"(d) proportional allocation: for 24 slice-bearing targets ([]uint64, [][]byte, []string, []interface{}, interface{}, []*big.Int, []RawValue, slices of narrow/pointer/wide structs, nested slices, arrays of slices, tail and multi-slice structs, a recursive type, []*Header, []*Transaction, Transactions, Block, Body, []*Receipt, []*Log) a type-directed generator draws a valid item of 2 KiB..1 MiB in three size profiles (sparse = few elements holding large strings, dense = up to 15000 small/empty elements, mixed), optionally changes it (a large string or list inserted into some list, one item changing kind, decoding into another target, one non-canonical header, truncation, trailing byte), and DecodeBytes, NewStream(reader,len).Decode and Decode(bytes.Reader) are each measured (above 128 KiB: DecodeBytes and one of the other two) against min(1.5*need, A*len(input))+8*W*items+16KiB (allocp:* labels; long-payload-few-elements = some list has >= 16 KiB payload and >= 256 bytes per element); accepted inputs must re-encode to themselves, unchanged ones must be accepted, non-canonical/truncated/trailing ones rejected. " +
+			"non-trivial = a near-miss (differs from a canonical encoding in one header) or an item with nesting >= 2 or a typed value or a proportional-allocation input of >= 1 KiB; distinct by hash of the input bytes + target name",
 		Assumptions: []string{
 			"refrlp (harness/ref/refrlp) is a correct strict RLP codec (checked against the grammar and unit vectors)",
-			"allocation bound checked as TotalAlloc delta <= 256*len(input)+64KiB per decode: catches allocation from a declared length, not constant-factor overhead",
+			"small inputs (cases a, b, declared-length): TotalAlloc delta <= 256*len(input)+64KiB per decode, the worst case of one 40-byte interface node per input byte with slice growth: catches allocation from a declared length only",
+			"large inputs (case d): TotalAlloc delta <= min(1.5*need, A*len(input)) + 8*W*items + 16KiB; need = bytes the leaves of the generated value are copied into ([]byte/RawValue/interface{} leaves once, string/big.Int leaves twice, byte arrays in place), used while the input is the (header-level changed, truncated or extended) encoding of the generated value; A=2 (all leaves copied once) or 3 (target has string/big.Int leaves) for structurally changed inputs; 1.5 and A include <=25% size-class/page rounding; W = widest Go object one item can become in the target type (reflect), items = number of RLP items the input was built from, 8 = 4.5x for 1.5x slice growth plus margin; measured on the unchanged tree: at most 0.70 of the bound; an excess must repeat in 5 measurements; memory proportional to the real element count times the element size is taken as needed by the value, memory proportional to payload bytes times the element size is not",
+			"bulk contents of strings longer than 8 bytes in case (d) are a xorshift expansion of one drawn word, not drawn byte by byte",
 		},
 	})
 }
